@@ -5,6 +5,11 @@ import DateutilVerif.Proofs.RenderCompact
 import DateutilVerif.Proofs.RenderMonFinal
 import DateutilVerif.Proofs.RenderClockFinal
 import DateutilVerif.Proofs.RenderNum
+import DateutilVerif.Proofs.RenderGenA
+import DateutilVerif.Proofs.RenderGenB
+import DateutilVerif.Proofs.RenderGenC
+import DateutilVerif.Proofs.RenderGenD
+import DateutilVerif.Proofs.RenderGenE
 namespace C02
 open PM Py PT
 
@@ -247,5 +252,338 @@ example : parse asciiCls (Info.default false false 2024 2000) {} [] .absent ⟨2
 -/
 example : parse asciiCls (Info.default false false 2024 2000) {} [] .absent ⟨2001, 1, 1, 0, 0, 0, 0⟩
     "Wed May 28 23:52:59 0031".toList = .ok ⟨⟨2031, 5, 28, 23, 52, 59, 0⟩, .naive, none⟩ := by decide +kernel
+
+-- BEGIN GENERATED INDEX (tools_local/gen_templates.py)
+/-- the theorem a template id stands for (`False` for an id without one) -/
+def TemplateThm (id : String) : Prop :=
+  if id = "us_slash" then
+    (∀ (cls : Char → CClass) [AsciiOK cls] (yf : Bool) (year century : Int) (o : Opts) (tznames : List Token) (tzi : TzInfos) (ho : StrictOpts o tzi) (hdf : o.dayfirst.getD false = false) (hyf : o.yearfirst.getD yf = false) (t dflt : DT) (ht : t.Valid) (hdv : dflt.Valid) (off : Off) (hoff : off.Dom),
+      parse cls (Info.default false yf year century) o tznames tzi dflt (str_us_slash t off.render) = .ok { dt := { t with us := 0 }, tz := offZone o tznames off, tokens := none })
+  else if id = "eu_slash" then
+    (∀ (cls : Char → CClass) [AsciiOK cls] (yf : Bool) (year century : Int) (o : Opts) (tznames : List Token) (tzi : TzInfos) (ho : StrictOpts o tzi) (hdf : o.dayfirst.getD false = true) (hyf : o.yearfirst.getD yf = false) (t dflt : DT) (ht : t.Valid) (hdv : dflt.Valid) (off : Off) (hoff : off.Dom),
+      parse cls (Info.default false yf year century) o tznames tzi dflt (str_eu_slash t off.render) = .ok { dt := { t with us := 0 }, tz := offZone o tznames off, tokens := none })
+  else if id = "yf_slash" then
+    (∀ (cls : Char → CClass) [AsciiOK cls] (yf : Bool) (year century : Int) (o : Opts) (tznames : List Token) (tzi : TzInfos) (ho : StrictOpts o tzi) (hdf : o.dayfirst.getD false = false) (t dflt : DT) (ht : t.Valid) (hdv : dflt.Valid) (off : Off) (hoff : off.Dom),
+      parse cls (Info.default false yf year century) o tznames tzi dflt (str_yf_slash t off.render) = .ok { dt := { t with us := 0 }, tz := offZone o tznames off, tokens := none })
+  else if id = "us_dash_date" then
+    (∀ (cls : Char → CClass) [AsciiOK cls] (yf : Bool) (year century : Int) (o : Opts) (tznames : List Token) (tzi : TzInfos) (ho : StrictOpts o tzi) (hdf : o.dayfirst.getD false = false) (hyf : o.yearfirst.getD yf = false) (t dflt : DT) (ht : t.Valid) (hdv : dflt.Valid),
+      parse cls (Info.default false yf year century) o tznames tzi dflt (str_us_dash_date t []) = .ok { dt := { t with hh := dflt.hh, mm := dflt.mm, ss := dflt.ss, us := dflt.us }, tz := .naive, tokens := none })
+  else if id = "iso_date" then
+    (∀ (cls : Char → CClass) [AsciiOK cls] (yf : Bool) (year century : Int) (o : Opts) (tznames : List Token) (tzi : TzInfos) (ho : StrictOpts o tzi) (hdf : o.dayfirst.getD false = false) (t dflt : DT) (ht : t.Valid) (hdv : dflt.Valid),
+      parse cls (Info.default false yf year century) o tznames tzi dflt (str_iso_date t []) = .ok { dt := { t with hh := dflt.hh, mm := dflt.mm, ss := dflt.ss, us := dflt.us }, tz := .naive, tokens := none })
+  else if id = "eu_yy" then
+    (∀ (cls : Char → CClass) [AsciiOK cls] (yf : Bool) (year century : Int) (o : Opts) (tznames : List Token) (tzi : TzInfos) (ho : StrictOpts o tzi) (hdf : o.dayfirst.getD false = true) (hyf : o.yearfirst.getD yf = false) (t dflt : DT) (ht : t.Valid) (hdv : dflt.Valid) (hwin : Gen.convertyear ⟨century, year⟩ (t.y % 100) false = .ok t.y) (off : Off) (hoff : off.Dom),
+      parse cls (Info.default false yf year century) o tznames tzi dflt (str_eu_yy t off.render) = .ok { dt := { t with ss := dflt.ss, us := dflt.us }, tz := offZone o tznames off, tokens := none })
+  else if id = "yymmdd" then
+    (∀ (cls : Char → CClass) [AsciiOK cls] (yf : Bool) (year century : Int) (o : Opts) (tznames : List Token) (tzi : TzInfos) (ho : StrictOpts o tzi) (hdf : o.dayfirst.getD false = false) (hyf : o.yearfirst.getD yf = true) (t dflt : DT) (ht : t.Valid) (hdv : dflt.Valid) (hwin : Gen.convertyear ⟨century, year⟩ (t.y % 100) false = .ok t.y),
+      parse cls (Info.default false yf year century) o tznames tzi dflt (str_yymmdd t []) = .ok { dt := { t with hh := dflt.hh, mm := dflt.mm, ss := dflt.ss, us := dflt.us }, tz := .naive, tokens := none })
+  else if id = "hms_letters" then
+    (∀ (cls : Char → CClass) [AsciiOK cls] (yf : Bool) (year century : Int) (o : Opts) (tznames : List Token) (tzi : TzInfos) (ho : StrictOpts o tzi) (hdf : o.dayfirst.getD false = false) (t dflt : DT) (ht : t.Valid) (hdv : dflt.Valid) (off : Off) (hoff : off.Dom) (hsp : off.Spaced),
+      parse cls (Info.default false yf year century) o tznames tzi dflt (str_hms_letters t off.render) = .ok { dt := { t with us := 0 }, tz := offZone o tznames off, tokens := none })
+  else if id = "hm_letters" then
+    (∀ (cls : Char → CClass) [AsciiOK cls] (yf : Bool) (year century : Int) (o : Opts) (tznames : List Token) (tzi : TzInfos) (ho : StrictOpts o tzi) (hdf : o.dayfirst.getD false = false) (t dflt : DT) (ht : t.Valid) (hdv : dflt.Valid) (off : Off) (hoff : off.Dom) (hsp : off.Spaced),
+      parse cls (Info.default false yf year century) o tznames tzi dflt (str_hm_letters t off.render) = .ok { dt := { t with ss := dflt.ss, us := dflt.us }, tz := offZone o tznames off, tokens := none })
+  else if id = "ampm_short" then
+    (∀ (cls : Char → CClass) [AsciiOK cls] (yf : Bool) (year century : Int) (o : Opts) (tznames : List Token) (tzi : TzInfos) (ho : StrictOpts o tzi) (hdf : o.dayfirst.getD false = false) (t dflt : DT) (ht : t.Valid) (hdv : dflt.Valid) (off : Off) (hoff : off.Dom) (hsp : off.Spaced),
+      parse cls (Info.default false yf year century) o tznames tzi dflt (str_ampm_short t off.render) = .ok { dt := { t with ss := dflt.ss, us := dflt.us }, tz := offZone o tznames off, tokens := none })
+  else if id = "ampm_hour" then
+    (∀ (cls : Char → CClass) [AsciiOK cls] (yf : Bool) (year century : Int) (o : Opts) (tznames : List Token) (tzi : TzInfos) (ho : StrictOpts o tzi) (hdf : o.dayfirst.getD false = false) (t dflt : DT) (ht : t.Valid) (hdv : dflt.Valid) (off : Off) (hoff : off.Dom) (hsp : off.Spaced),
+      parse cls (Info.default false yf year century) o tznames tzi dflt (str_ampm_hour t off.render) = .ok { dt := { t with mm := dflt.mm, ss := dflt.ss, us := dflt.us }, tz := offZone o tznames off, tokens := none })
+  else if id = "ampm_hour_tight" then
+    (∀ (cls : Char → CClass) [AsciiOK cls] (yf : Bool) (year century : Int) (o : Opts) (tznames : List Token) (tzi : TzInfos) (ho : StrictOpts o tzi) (hdf : o.dayfirst.getD false = false) (t dflt : DT) (ht : t.Valid) (hdv : dflt.Valid) (off : Off) (hoff : off.Dom) (hsp : off.Spaced),
+      parse cls (Info.default false yf year century) o tznames tzi dflt (str_ampm_hour_tight t off.render) = .ok { dt := { t with mm := dflt.mm, ss := dflt.ss, us := dflt.us }, tz := offZone o tznames off, tokens := none })
+  else if id = "ampm_hms_sp" then
+    (∀ (cls : Char → CClass) [AsciiOK cls] (yf : Bool) (year century : Int) (o : Opts) (tznames : List Token) (tzi : TzInfos) (ho : StrictOpts o tzi) (hdf : o.dayfirst.getD false = false) (t dflt : DT) (ht : t.Valid) (hdv : dflt.Valid) (off : Off) (hoff : off.Dom) (hsp : off.Spaced),
+      parse cls (Info.default false yf year century) o tznames tzi dflt (str_ampm_hms_sp t off.render) = .ok { dt := { t with us := 0 }, tz := offZone o tznames off, tokens := none })
+  else if id = "dd-Mon-Y_hm" then
+    (∀ (cls : Char → CClass) [AsciiOK cls] (yf : Bool) (year century : Int) (o : Opts) (tznames : List Token) (tzi : TzInfos) (ho : StrictOpts o tzi)  (t dflt : DT) (ht : t.Valid) (hdv : dflt.Valid) (off : Off) (hoff : off.Dom),
+      parse cls (Info.default false yf year century) o tznames tzi dflt (str_dd_Mon_Y_hm t off.render) = .ok { dt := { t with ss := dflt.ss, us := dflt.us }, tz := offZone o tznames off, tokens := none })
+  else if id = "dd-Mon-yy" then
+    (∀ (cls : Char → CClass) [AsciiOK cls] (yf : Bool) (year century : Int) (o : Opts) (tznames : List Token) (tzi : TzInfos) (ho : StrictOpts o tzi) (hyf : o.yearfirst.getD yf = false) (t dflt : DT) (ht : t.Valid) (hdv : dflt.Valid) (hwin : Gen.convertyear ⟨century, year⟩ (t.y % 100) false = .ok t.y),
+      parse cls (Info.default false yf year century) o tznames tzi dflt (str_dd_Mon_yy t []) = .ok { dt := { t with hh := dflt.hh, mm := dflt.mm, ss := dflt.ss, us := dflt.us }, tz := .naive, tokens := none })
+  else if id = "d_Month_Y_hm" then
+    (∀ (cls : Char → CClass) [AsciiOK cls] (yf : Bool) (year century : Int) (o : Opts) (tznames : List Token) (tzi : TzInfos) (ho : StrictOpts o tzi) (hyf : o.yearfirst.getD yf = false) (t dflt : DT) (ht : t.Valid) (hdv : dflt.Valid) (hy : 100 ≤ t.y) (off : Off) (hoff : off.Dom),
+      parse cls (Info.default false yf year century) o tznames tzi dflt (str_d_Month_Y_hm t off.render) = .ok { dt := { t with ss := dflt.ss, us := dflt.us }, tz := offZone o tznames off, tokens := none })
+  else if id = "Mon_d_Y_hms" then
+    (∀ (cls : Char → CClass) [AsciiOK cls] (yf : Bool) (year century : Int) (o : Opts) (tznames : List Token) (tzi : TzInfos) (ho : StrictOpts o tzi)  (t dflt : DT) (ht : t.Valid) (hdv : dflt.Valid) (hy : 100 ≤ t.y) (off : Off) (hoff : off.Dom),
+      parse cls (Info.default false yf year century) o tznames tzi dflt (str_Mon_d_Y_hms t off.render) = .ok { dt := { t with us := 0 }, tz := offZone o tznames off, tokens := none })
+  else if id = "compact_T_s" then
+    (∀ (cls : Char → CClass) [AsciiOK cls] (yf : Bool) (year century : Int) (o : Opts) (tznames : List Token) (tzi : TzInfos) (ho : StrictOpts o tzi) (hdf : o.dayfirst.getD false = false) (t dflt : DT) (ht : t.Valid) (hdv : dflt.Valid) (off : Off) (hoff : off.Dom),
+      parse cls (Info.default false yf year century) o tznames tzi dflt (str_compact_T_s t off.render) = .ok { dt := { t with us := 0 }, tz := offZone o tznames off, tokens := none })
+  else if id = "compact_nosep_s" then
+    (∀ (cls : Char → CClass) [AsciiOK cls] (yf : Bool) (year century : Int) (o : Opts) (tznames : List Token) (tzi : TzInfos) (ho : StrictOpts o tzi) (hdf : o.dayfirst.getD false = false) (t dflt : DT) (ht : t.Valid) (hdv : dflt.Valid) (off : Off) (hoff : off.Dom),
+      parse cls (Info.default false yf year century) o tznames tzi dflt (str_compact_nosep_s t off.render) = .ok { dt := { t with us := dflt.us }, tz := offZone o tznames off, tokens := none })
+  else if id = "compact_T_min" then
+    (∀ (cls : Char → CClass) [AsciiOK cls] (yf : Bool) (year century : Int) (o : Opts) (tznames : List Token) (tzi : TzInfos) (ho : StrictOpts o tzi) (hdf : o.dayfirst.getD false = false) (t dflt : DT) (ht : t.Valid) (hdv : dflt.Valid) (off : Off) (hoff : off.Dom),
+      parse cls (Info.default false yf year century) o tznames tzi dflt (str_compact_T_min t off.render) = .ok { dt := { t with ss := dflt.ss, us := dflt.us }, tz := offZone o tznames off, tokens := none })
+  else if id = "compact_nosep_min" then
+    (∀ (cls : Char → CClass) [AsciiOK cls] (yf : Bool) (year century : Int) (o : Opts) (tznames : List Token) (tzi : TzInfos) (ho : StrictOpts o tzi) (hdf : o.dayfirst.getD false = false) (t dflt : DT) (ht : t.Valid) (hdv : dflt.Valid) (off : Off) (hoff : off.Dom),
+      parse cls (Info.default false yf year century) o tznames tzi dflt (str_compact_nosep_min t off.render) = .ok { dt := { t with ss := dflt.ss, us := dflt.us }, tz := offZone o tznames off, tokens := none })
+  else if id = "compact_date" then
+    (∀ (cls : Char → CClass) [AsciiOK cls] (yf : Bool) (year century : Int) (o : Opts) (tznames : List Token) (tzi : TzInfos) (ho : StrictOpts o tzi) (hdf : o.dayfirst.getD false = false) (t dflt : DT) (ht : t.Valid) (hdv : dflt.Valid),
+      parse cls (Info.default false yf year century) o tznames tzi dflt (str_compact_date t []) = .ok { dt := { t with hh := dflt.hh, mm := dflt.mm, ss := dflt.ss, us := dflt.us }, tz := .naive, tokens := none })
+  else if id = "iso_T_s" then
+    (∀ (cls : Char → CClass) [AsciiOK cls] (yf : Bool) (year century : Int) (o : Opts) (tznames : List Token) (tzi : TzInfos) (ho : PlainOpts o tzi) (t dflt : DT) (ht : t.Valid) (hdv : dflt.Valid) (off : Off) (hoff : off.Dom),
+      parse cls (Info.default false yf year century) o tznames tzi dflt (renderIsoX 'T' .hms t off) =
+        .ok { dt := TimeFmt.expect .hms t dflt, tz := if o.ignoretz then .naive else offDescr tznames off, tokens := none })
+  else if id = "iso_sp_s" then
+    (∀ (cls : Char → CClass) [AsciiOK cls] (yf : Bool) (year century : Int) (o : Opts) (tznames : List Token) (tzi : TzInfos) (ho : PlainOpts o tzi) (t dflt : DT) (ht : t.Valid) (hdv : dflt.Valid) (off : Off) (hoff : off.Dom),
+      parse cls (Info.default false yf year century) o tznames tzi dflt (renderIsoX ' ' .hms t off) =
+        .ok { dt := TimeFmt.expect .hms t dflt, tz := if o.ignoretz then .naive else offDescr tznames off, tokens := none })
+  else if id = "iso_T_us" then
+    (∀ (cls : Char → CClass) [AsciiOK cls] (yf : Bool) (year century : Int) (o : Opts) (tznames : List Token) (tzi : TzInfos) (ho : PlainOpts o tzi) (t dflt : DT) (ht : t.Valid) (hdv : dflt.Valid) (off : Off) (hoff : off.Dom),
+      parse cls (Info.default false yf year century) o tznames tzi dflt (renderIsoX 'T' (.frac false 6) t off) =
+        .ok { dt := TimeFmt.expect (.frac false 6) t dflt, tz := if o.ignoretz then .naive else offDescr tznames off, tokens := none })
+  else if id = "iso_sp_us" then
+    (∀ (cls : Char → CClass) [AsciiOK cls] (yf : Bool) (year century : Int) (o : Opts) (tznames : List Token) (tzi : TzInfos) (ho : PlainOpts o tzi) (t dflt : DT) (ht : t.Valid) (hdv : dflt.Valid) (off : Off) (hoff : off.Dom),
+      parse cls (Info.default false yf year century) o tznames tzi dflt (renderIsoX ' ' (.frac false 6) t off) =
+        .ok { dt := TimeFmt.expect (.frac false 6) t dflt, tz := if o.ignoretz then .naive else offDescr tznames off, tokens := none })
+  else if id = "iso_T_comma_f3" then
+    (∀ (cls : Char → CClass) [AsciiOK cls] (yf : Bool) (year century : Int) (o : Opts) (tznames : List Token) (tzi : TzInfos) (ho : PlainOpts o tzi) (t dflt : DT) (ht : t.Valid) (hdv : dflt.Valid) (off : Off) (hoff : off.Dom),
+      parse cls (Info.default false yf year century) o tznames tzi dflt (renderIsoX 'T' (.frac true 3) t off) =
+        .ok { dt := TimeFmt.expect (.frac true 3) t dflt, tz := if o.ignoretz then .naive else offDescr tznames off, tokens := none })
+  else if id = "iso_sp_comma_f6" then
+    (∀ (cls : Char → CClass) [AsciiOK cls] (yf : Bool) (year century : Int) (o : Opts) (tznames : List Token) (tzi : TzInfos) (ho : PlainOpts o tzi) (t dflt : DT) (ht : t.Valid) (hdv : dflt.Valid) (off : Off) (hoff : off.Dom),
+      parse cls (Info.default false yf year century) o tznames tzi dflt (renderIsoX ' ' (.frac true 6) t off) =
+        .ok { dt := TimeFmt.expect (.frac true 6) t dflt, tz := if o.ignoretz then .naive else offDescr tznames off, tokens := none })
+  else if id = "iso_T_min" then
+    (∀ (cls : Char → CClass) [AsciiOK cls] (yf : Bool) (year century : Int) (o : Opts) (tznames : List Token) (tzi : TzInfos) (ho : PlainOpts o tzi) (t dflt : DT) (ht : t.Valid) (hdv : dflt.Valid) (off : Off) (hoff : off.Dom),
+      parse cls (Info.default false yf year century) o tznames tzi dflt (renderIsoX 'T' .hm t off) =
+        .ok { dt := TimeFmt.expect .hm t dflt, tz := if o.ignoretz then .naive else offDescr tznames off, tokens := none })
+  else if id = "iso_sp_min" then
+    (∀ (cls : Char → CClass) [AsciiOK cls] (yf : Bool) (year century : Int) (o : Opts) (tznames : List Token) (tzi : TzInfos) (ho : PlainOpts o tzi) (t dflt : DT) (ht : t.Valid) (hdv : dflt.Valid) (off : Off) (hoff : off.Dom),
+      parse cls (Info.default false yf year century) o tznames tzi dflt (renderIsoX ' ' .hm t off) =
+        .ok { dt := TimeFmt.expect .hm t dflt, tz := if o.ignoretz then .naive else offDescr tznames off, tokens := none })
+  else if id = "iso_T_dot_f1" then
+    (∀ (cls : Char → CClass) [AsciiOK cls] (yf : Bool) (year century : Int) (o : Opts) (tznames : List Token) (tzi : TzInfos) (ho : PlainOpts o tzi) (t dflt : DT) (ht : t.Valid) (hdv : dflt.Valid) (off : Off) (hoff : off.Dom),
+      parse cls (Info.default false yf year century) o tznames tzi dflt (renderIsoX 'T' (.frac false 1) t off) =
+        .ok { dt := TimeFmt.expect (.frac false 1) t dflt, tz := if o.ignoretz then .naive else offDescr tznames off, tokens := none })
+  else if id = "iso_T_dot_f2" then
+    (∀ (cls : Char → CClass) [AsciiOK cls] (yf : Bool) (year century : Int) (o : Opts) (tznames : List Token) (tzi : TzInfos) (ho : PlainOpts o tzi) (t dflt : DT) (ht : t.Valid) (hdv : dflt.Valid) (off : Off) (hoff : off.Dom),
+      parse cls (Info.default false yf year century) o tznames tzi dflt (renderIsoX 'T' (.frac false 2) t off) =
+        .ok { dt := TimeFmt.expect (.frac false 2) t dflt, tz := if o.ignoretz then .naive else offDescr tznames off, tokens := none })
+  else if id = "iso_T_dot_f3" then
+    (∀ (cls : Char → CClass) [AsciiOK cls] (yf : Bool) (year century : Int) (o : Opts) (tznames : List Token) (tzi : TzInfos) (ho : PlainOpts o tzi) (t dflt : DT) (ht : t.Valid) (hdv : dflt.Valid) (off : Off) (hoff : off.Dom),
+      parse cls (Info.default false yf year century) o tznames tzi dflt (renderIsoX 'T' (.frac false 3) t off) =
+        .ok { dt := TimeFmt.expect (.frac false 3) t dflt, tz := if o.ignoretz then .naive else offDescr tznames off, tokens := none })
+  else if id = "iso_T_dot_f4" then
+    (∀ (cls : Char → CClass) [AsciiOK cls] (yf : Bool) (year century : Int) (o : Opts) (tznames : List Token) (tzi : TzInfos) (ho : PlainOpts o tzi) (t dflt : DT) (ht : t.Valid) (hdv : dflt.Valid) (off : Off) (hoff : off.Dom),
+      parse cls (Info.default false yf year century) o tznames tzi dflt (renderIsoX 'T' (.frac false 4) t off) =
+        .ok { dt := TimeFmt.expect (.frac false 4) t dflt, tz := if o.ignoretz then .naive else offDescr tznames off, tokens := none })
+  else if id = "iso_T_dot_f5" then
+    (∀ (cls : Char → CClass) [AsciiOK cls] (yf : Bool) (year century : Int) (o : Opts) (tznames : List Token) (tzi : TzInfos) (ho : PlainOpts o tzi) (t dflt : DT) (ht : t.Valid) (hdv : dflt.Valid) (off : Off) (hoff : off.Dom),
+      parse cls (Info.default false yf year century) o tznames tzi dflt (renderIsoX 'T' (.frac false 5) t off) =
+        .ok { dt := TimeFmt.expect (.frac false 5) t dflt, tz := if o.ignoretz then .naive else offDescr tznames off, tokens := none })
+  else if id = "rfc2822" then
+    (∀ (cls : Char → CClass) [AsciiOK cls] (yf : Bool) (year century : Int) (o : Opts) (tznames : List Token) (tzi : TzInfos) (ho : PlainOpts o tzi) (t dflt : DT) (ht : t.Valid) (hdv : dflt.Valid) (hy : 100 ≤ t.y) (off : Off) (hoff : off.Dom),
+      parse cls (Info.default false yf year century) o tznames tzi dflt (renderMon (.rfc2822 t.weekday.toNat) t off) =
+        .ok { dt := MonFmt.expect (.rfc2822 t.weekday.toNat) t dflt, tz := (if o.ignoretz then .naive else offDescr tznames off), tokens := none })
+  else if id = "ctime" then
+    (∀ (cls : Char → CClass) [AsciiOK cls] (yf : Bool) (year century : Int) (o : Opts) (tznames : List Token) (tzi : TzInfos) (ho : PlainOpts o tzi) (t dflt : DT) (ht : t.Valid) (hdv : dflt.Valid) (hy : 100 ≤ t.y),
+      parse cls (Info.default false yf year century) o tznames tzi dflt (renderMon (.ctime t.weekday.toNat) t .naive) =
+        .ok { dt := MonFmt.expect (.ctime t.weekday.toNat) t dflt, tz := .naive, tokens := none })
+  else if id = "d_Mon_Y" then
+    (∀ (cls : Char → CClass) [AsciiOK cls] (yf : Bool) (year century : Int) (o : Opts) (tznames : List Token) (tzi : TzInfos) (ho : PlainOpts o tzi) (t dflt : DT) (ht : t.Valid) (hdv : dflt.Valid) (hy : 100 ≤ t.y),
+      parse cls (Info.default false yf year century) o tznames tzi dflt (renderMon .dMonY t .naive) =
+        .ok { dt := MonFmt.expect .dMonY t dflt, tz := .naive, tokens := none })
+  else if id = "us_slash_date" then
+    (∀ (cls : Char → CClass) [AsciiOK cls] (yfi : Bool) (year : Int) (o : Opts) (tznames : List Token) (tzi : TzInfos) (hfz : o.fuzzy = false)
+      (hfwt : o.fuzzyWithTokens = false) (htz : tzi.applies none = false) (t dflt : DT) (ht : t.Valid) (hdv : dflt.Valid)
+      (hflags : numFlagsOk .us (o.dayfirst.getD false) (o.yearfirst.getD yfi)) (hwin : NumFmt.twoDigit .us = true → year - 50 ≤ t.y ∧ t.y < year + 50),
+      parse cls (Info.default false yfi year (year / 100 * 100)) o tznames tzi dflt (renderNum .us t) =
+        .ok { dt := { t with hh := dflt.hh, mm := dflt.mm, ss := dflt.ss, us := dflt.us }, tz := .naive, tokens := none })
+  else if id = "eu_slash_date" then
+    (∀ (cls : Char → CClass) [AsciiOK cls] (yfi : Bool) (year : Int) (o : Opts) (tznames : List Token) (tzi : TzInfos) (hfz : o.fuzzy = false)
+      (hfwt : o.fuzzyWithTokens = false) (htz : tzi.applies none = false) (t dflt : DT) (ht : t.Valid) (hdv : dflt.Valid)
+      (hflags : numFlagsOk .eu (o.dayfirst.getD false) (o.yearfirst.getD yfi)) (hwin : NumFmt.twoDigit .eu = true → year - 50 ≤ t.y ∧ t.y < year + 50),
+      parse cls (Info.default false yfi year (year / 100 * 100)) o tznames tzi dflt (renderNum .eu t) =
+        .ok { dt := { t with hh := dflt.hh, mm := dflt.mm, ss := dflt.ss, us := dflt.us }, tz := .naive, tokens := none })
+  else if id = "yf_slash_date" then
+    (∀ (cls : Char → CClass) [AsciiOK cls] (yfi : Bool) (year : Int) (o : Opts) (tznames : List Token) (tzi : TzInfos) (hfz : o.fuzzy = false)
+      (hfwt : o.fuzzyWithTokens = false) (htz : tzi.applies none = false) (t dflt : DT) (ht : t.Valid) (hdv : dflt.Valid)
+      (hflags : numFlagsOk .yf (o.dayfirst.getD false) (o.yearfirst.getD yfi)) (hwin : NumFmt.twoDigit .yf = true → year - 50 ≤ t.y ∧ t.y < year + 50),
+      parse cls (Info.default false yfi year (year / 100 * 100)) o tznames tzi dflt (renderNum .yf t) =
+        .ok { dt := { t with hh := dflt.hh, mm := dflt.mm, ss := dflt.ss, us := dflt.us }, tz := .naive, tokens := none })
+  else if id = "us_yy" then
+    (∀ (cls : Char → CClass) [AsciiOK cls] (yfi : Bool) (year : Int) (o : Opts) (tznames : List Token) (tzi : TzInfos) (hfz : o.fuzzy = false)
+      (hfwt : o.fuzzyWithTokens = false) (htz : tzi.applies none = false) (t dflt : DT) (ht : t.Valid) (hdv : dflt.Valid)
+      (hflags : numFlagsOk .us2 (o.dayfirst.getD false) (o.yearfirst.getD yfi)) (hwin : NumFmt.twoDigit .us2 = true → year - 50 ≤ t.y ∧ t.y < year + 50),
+      parse cls (Info.default false yfi year (year / 100 * 100)) o tznames tzi dflt (renderNum .us2 t) =
+        .ok { dt := { t with hh := dflt.hh, mm := dflt.mm, ss := dflt.ss, us := dflt.us }, tz := .naive, tokens := none })
+  else if id = "eu_yy_date" then
+    (∀ (cls : Char → CClass) [AsciiOK cls] (yfi : Bool) (year : Int) (o : Opts) (tznames : List Token) (tzi : TzInfos) (hfz : o.fuzzy = false)
+      (hfwt : o.fuzzyWithTokens = false) (htz : tzi.applies none = false) (t dflt : DT) (ht : t.Valid) (hdv : dflt.Valid)
+      (hflags : numFlagsOk .eu2 (o.dayfirst.getD false) (o.yearfirst.getD yfi)) (hwin : NumFmt.twoDigit .eu2 = true → year - 50 ≤ t.y ∧ t.y < year + 50),
+      parse cls (Info.default false yfi year (year / 100 * 100)) o tznames tzi dflt (renderNum .eu2 t) =
+        .ok { dt := { t with hh := dflt.hh, mm := dflt.mm, ss := dflt.ss, us := dflt.us }, tz := .naive, tokens := none })
+  else if id = "yf_yy" then
+    (∀ (cls : Char → CClass) [AsciiOK cls] (yfi : Bool) (year : Int) (o : Opts) (tznames : List Token) (tzi : TzInfos) (hfz : o.fuzzy = false)
+      (hfwt : o.fuzzyWithTokens = false) (htz : tzi.applies none = false) (t dflt : DT) (ht : t.Valid) (hdv : dflt.Valid)
+      (hflags : numFlagsOk .yf2 (o.dayfirst.getD false) (o.yearfirst.getD yfi)) (hwin : NumFmt.twoDigit .yf2 = true → year - 50 ≤ t.y ∧ t.y < year + 50),
+      parse cls (Info.default false yfi year (year / 100 * 100)) o tznames tzi dflt (renderNum .yf2 t) =
+        .ok { dt := { t with hh := dflt.hh, mm := dflt.mm, ss := dflt.ss, us := dflt.us }, tz := .naive, tokens := none })
+  else False
+
+/-- **every id in `PT.provedTemplates` (the list the evidence prints through the `parser.proved` op) has its theorem**:
+    an id listed without a proof makes this fail to build, so the evidence cannot claim more than is proved. -/
+theorem proved_templates_have_theorems : ∀ p ∈ provedTemplates, TemplateThm p.1 := by
+  intro p hp
+  simp only [provedTemplates, List.mem_cons, List.mem_nil_iff, or_false] at hp
+  rcases hp with rfl | rfl | rfl | rfl | rfl | rfl | rfl | rfl | rfl | rfl | rfl | rfl | rfl | rfl | rfl | rfl | rfl | rfl | rfl | rfl | rfl | rfl | rfl | rfl | rfl | rfl | rfl | rfl | rfl | rfl | rfl | rfl | rfl | rfl | rfl | rfl | rfl | rfl | rfl | rfl | rfl | rfl | rfl | rfl
+  · show TemplateThm "us_slash"
+    simp only [TemplateThm]
+    exact fun cls _ yf year century o tznames tzi ho hdf hyf t dflt ht hdv off hoff => tpl_us_slash cls yf year century o tznames tzi ho hdf hyf t dflt ht hdv off hoff
+  · show TemplateThm "eu_slash"
+    simp only [TemplateThm]
+    exact fun cls _ yf year century o tznames tzi ho hdf hyf t dflt ht hdv off hoff => tpl_eu_slash cls yf year century o tznames tzi ho hdf hyf t dflt ht hdv off hoff
+  · show TemplateThm "yf_slash"
+    simp only [TemplateThm]
+    exact fun cls _ yf year century o tznames tzi ho hdf t dflt ht hdv off hoff => tpl_yf_slash cls yf year century o tznames tzi ho hdf t dflt ht hdv off hoff
+  · show TemplateThm "us_dash_date"
+    simp only [TemplateThm]
+    exact fun cls _ yf year century o tznames tzi ho hdf hyf t dflt ht hdv => tpl_us_dash_date cls yf year century o tznames tzi ho hdf hyf t dflt ht hdv
+  · show TemplateThm "iso_date"
+    simp only [TemplateThm]
+    exact fun cls _ yf year century o tznames tzi ho hdf t dflt ht hdv => tpl_iso_date cls yf year century o tznames tzi ho hdf t dflt ht hdv
+  · show TemplateThm "eu_yy"
+    simp only [TemplateThm]
+    exact fun cls _ yf year century o tznames tzi ho hdf hyf t dflt ht hdv hwin off hoff => tpl_eu_yy cls yf year century o tznames tzi ho hdf hyf t dflt ht hdv hwin off hoff
+  · show TemplateThm "yymmdd"
+    simp only [TemplateThm]
+    exact fun cls _ yf year century o tznames tzi ho hdf hyf t dflt ht hdv hwin => tpl_yymmdd cls yf year century o tznames tzi ho hdf hyf t dflt ht hdv hwin
+  · show TemplateThm "hms_letters"
+    simp only [TemplateThm]
+    exact fun cls _ yf year century o tznames tzi ho hdf t dflt ht hdv off hoff hsp => tpl_hms_letters cls yf year century o tznames tzi ho hdf t dflt ht hdv off hoff hsp
+  · show TemplateThm "hm_letters"
+    simp only [TemplateThm]
+    exact fun cls _ yf year century o tznames tzi ho hdf t dflt ht hdv off hoff hsp => tpl_hm_letters cls yf year century o tznames tzi ho hdf t dflt ht hdv off hoff hsp
+  · show TemplateThm "ampm_short"
+    simp only [TemplateThm]
+    exact fun cls _ yf year century o tznames tzi ho hdf t dflt ht hdv off hoff hsp => tpl_ampm_short cls yf year century o tznames tzi ho hdf t dflt ht hdv off hoff hsp
+  · show TemplateThm "ampm_hour"
+    simp only [TemplateThm]
+    exact fun cls _ yf year century o tznames tzi ho hdf t dflt ht hdv off hoff hsp => tpl_ampm_hour cls yf year century o tznames tzi ho hdf t dflt ht hdv off hoff hsp
+  · show TemplateThm "ampm_hour_tight"
+    simp only [TemplateThm]
+    exact fun cls _ yf year century o tznames tzi ho hdf t dflt ht hdv off hoff hsp => tpl_ampm_hour_tight cls yf year century o tznames tzi ho hdf t dflt ht hdv off hoff hsp
+  · show TemplateThm "ampm_hms_sp"
+    simp only [TemplateThm]
+    exact fun cls _ yf year century o tznames tzi ho hdf t dflt ht hdv off hoff hsp => tpl_ampm_hms_sp cls yf year century o tznames tzi ho hdf t dflt ht hdv off hoff hsp
+  · show TemplateThm "dd-Mon-Y_hm"
+    simp only [TemplateThm]
+    exact fun cls _ yf year century o tznames tzi ho  t dflt ht hdv off hoff => tpl_dd_Mon_Y_hm cls yf year century o tznames tzi ho  t dflt ht hdv off hoff
+  · show TemplateThm "dd-Mon-yy"
+    simp only [TemplateThm]
+    exact fun cls _ yf year century o tznames tzi ho hyf t dflt ht hdv hwin => tpl_dd_Mon_yy cls yf year century o tznames tzi ho hyf t dflt ht hdv hwin
+  · show TemplateThm "d_Month_Y_hm"
+    simp only [TemplateThm]
+    exact fun cls _ yf year century o tznames tzi ho hyf t dflt ht hdv hy off hoff => tpl_d_Month_Y_hm cls yf year century o tznames tzi ho hyf t dflt ht hdv hy off hoff
+  · show TemplateThm "Mon_d_Y_hms"
+    simp only [TemplateThm]
+    exact fun cls _ yf year century o tznames tzi ho  t dflt ht hdv hy off hoff => tpl_Mon_d_Y_hms cls yf year century o tznames tzi ho  t dflt ht hdv hy off hoff
+  · show TemplateThm "compact_T_s"
+    simp only [TemplateThm]
+    exact fun cls _ yf year century o tznames tzi ho hdf t dflt ht hdv off hoff => tpl_compact_T_s cls yf year century o tznames tzi ho hdf t dflt ht hdv off hoff
+  · show TemplateThm "compact_nosep_s"
+    simp only [TemplateThm]
+    exact fun cls _ yf year century o tznames tzi ho hdf t dflt ht hdv off hoff => tpl_compact_nosep_s cls yf year century o tznames tzi ho hdf t dflt ht hdv off hoff
+  · show TemplateThm "compact_T_min"
+    simp only [TemplateThm]
+    exact fun cls _ yf year century o tznames tzi ho hdf t dflt ht hdv off hoff => tpl_compact_T_min cls yf year century o tznames tzi ho hdf t dflt ht hdv off hoff
+  · show TemplateThm "compact_nosep_min"
+    simp only [TemplateThm]
+    exact fun cls _ yf year century o tznames tzi ho hdf t dflt ht hdv off hoff => tpl_compact_nosep_min cls yf year century o tznames tzi ho hdf t dflt ht hdv off hoff
+  · show TemplateThm "compact_date"
+    simp only [TemplateThm]
+    exact fun cls _ yf year century o tznames tzi ho hdf t dflt ht hdv => tpl_compact_date cls yf year century o tznames tzi ho hdf t dflt ht hdv
+  · show TemplateThm "iso_T_s"
+    simp only [TemplateThm]
+    exact fun cls _ yf year century o tznames tzi ho t dflt ht hdv off hoff =>
+      parse_isoX cls yf year century o tznames tzi ho dflt hdv t ht 'T' (by decide) .hms (by simp [timeFmtDom]) off hoff
+  · show TemplateThm "iso_sp_s"
+    simp only [TemplateThm]
+    exact fun cls _ yf year century o tznames tzi ho t dflt ht hdv off hoff =>
+      parse_isoX cls yf year century o tznames tzi ho dflt hdv t ht ' ' (by decide) .hms (by simp [timeFmtDom]) off hoff
+  · show TemplateThm "iso_T_us"
+    simp only [TemplateThm]
+    exact fun cls _ yf year century o tznames tzi ho t dflt ht hdv off hoff =>
+      parse_isoX cls yf year century o tznames tzi ho dflt hdv t ht 'T' (by decide) (.frac false 6) (by simp [timeFmtDom]) off hoff
+  · show TemplateThm "iso_sp_us"
+    simp only [TemplateThm]
+    exact fun cls _ yf year century o tznames tzi ho t dflt ht hdv off hoff =>
+      parse_isoX cls yf year century o tznames tzi ho dflt hdv t ht ' ' (by decide) (.frac false 6) (by simp [timeFmtDom]) off hoff
+  · show TemplateThm "iso_T_comma_f3"
+    simp only [TemplateThm]
+    exact fun cls _ yf year century o tznames tzi ho t dflt ht hdv off hoff =>
+      parse_isoX cls yf year century o tznames tzi ho dflt hdv t ht 'T' (by decide) (.frac true 3) (by simp [timeFmtDom]) off hoff
+  · show TemplateThm "iso_sp_comma_f6"
+    simp only [TemplateThm]
+    exact fun cls _ yf year century o tznames tzi ho t dflt ht hdv off hoff =>
+      parse_isoX cls yf year century o tznames tzi ho dflt hdv t ht ' ' (by decide) (.frac true 6) (by simp [timeFmtDom]) off hoff
+  · show TemplateThm "iso_T_min"
+    simp only [TemplateThm]
+    exact fun cls _ yf year century o tznames tzi ho t dflt ht hdv off hoff =>
+      parse_isoX cls yf year century o tznames tzi ho dflt hdv t ht 'T' (by decide) .hm (by simp [timeFmtDom]) off hoff
+  · show TemplateThm "iso_sp_min"
+    simp only [TemplateThm]
+    exact fun cls _ yf year century o tznames tzi ho t dflt ht hdv off hoff =>
+      parse_isoX cls yf year century o tznames tzi ho dflt hdv t ht ' ' (by decide) .hm (by simp [timeFmtDom]) off hoff
+  · show TemplateThm "iso_T_dot_f1"
+    simp only [TemplateThm]
+    exact fun cls _ yf year century o tznames tzi ho t dflt ht hdv off hoff =>
+      parse_isoX cls yf year century o tznames tzi ho dflt hdv t ht 'T' (by decide) (.frac false 1) (by simp [timeFmtDom]) off hoff
+  · show TemplateThm "iso_T_dot_f2"
+    simp only [TemplateThm]
+    exact fun cls _ yf year century o tznames tzi ho t dflt ht hdv off hoff =>
+      parse_isoX cls yf year century o tznames tzi ho dflt hdv t ht 'T' (by decide) (.frac false 2) (by simp [timeFmtDom]) off hoff
+  · show TemplateThm "iso_T_dot_f3"
+    simp only [TemplateThm]
+    exact fun cls _ yf year century o tznames tzi ho t dflt ht hdv off hoff =>
+      parse_isoX cls yf year century o tznames tzi ho dflt hdv t ht 'T' (by decide) (.frac false 3) (by simp [timeFmtDom]) off hoff
+  · show TemplateThm "iso_T_dot_f4"
+    simp only [TemplateThm]
+    exact fun cls _ yf year century o tznames tzi ho t dflt ht hdv off hoff =>
+      parse_isoX cls yf year century o tznames tzi ho dflt hdv t ht 'T' (by decide) (.frac false 4) (by simp [timeFmtDom]) off hoff
+  · show TemplateThm "iso_T_dot_f5"
+    simp only [TemplateThm]
+    exact fun cls _ yf year century o tznames tzi ho t dflt ht hdv off hoff =>
+      parse_isoX cls yf year century o tznames tzi ho dflt hdv t ht 'T' (by decide) (.frac false 5) (by simp [timeFmtDom]) off hoff
+  · show TemplateThm "rfc2822"
+    simp only [TemplateThm]
+    exact fun cls _ yf year century o tznames tzi ho t dflt ht hdv hy off hoff =>
+      parse_mon cls yf year century o tznames tzi ho dflt hdv t ht (.rfc2822 t.weekday.toNat) (by first | exact hy | exact ⟨weekday_lt7 t, hy⟩) off hoff
+  · show TemplateThm "ctime"
+    simp only [TemplateThm]
+    exact fun cls _ yf year century o tznames tzi ho t dflt ht hdv hy =>
+      parse_mon cls yf year century o tznames tzi ho dflt hdv t ht (.ctime t.weekday.toNat) (by first | exact hy | exact ⟨weekday_lt7 t, hy⟩) .naive trivial
+  · show TemplateThm "d_Mon_Y"
+    simp only [TemplateThm]
+    exact fun cls _ yf year century o tznames tzi ho t dflt ht hdv hy =>
+      parse_mon cls yf year century o tznames tzi ho dflt hdv t ht .dMonY (by first | exact hy | exact ⟨weekday_lt7 t, hy⟩) .naive trivial
+  · show TemplateThm "us_slash_date"
+    simp only [TemplateThm]
+    exact fun cls _ yfi year o tznames tzi hfz hfwt htz t dflt ht hdv hflags hwin =>
+      parse_render_numeric cls yfi year o tznames tzi hfz hfwt htz dflt hdv t ht .us hflags hwin
+  · show TemplateThm "eu_slash_date"
+    simp only [TemplateThm]
+    exact fun cls _ yfi year o tznames tzi hfz hfwt htz t dflt ht hdv hflags hwin =>
+      parse_render_numeric cls yfi year o tznames tzi hfz hfwt htz dflt hdv t ht .eu hflags hwin
+  · show TemplateThm "yf_slash_date"
+    simp only [TemplateThm]
+    exact fun cls _ yfi year o tznames tzi hfz hfwt htz t dflt ht hdv hflags hwin =>
+      parse_render_numeric cls yfi year o tznames tzi hfz hfwt htz dflt hdv t ht .yf hflags hwin
+  · show TemplateThm "us_yy"
+    simp only [TemplateThm]
+    exact fun cls _ yfi year o tznames tzi hfz hfwt htz t dflt ht hdv hflags hwin =>
+      parse_render_numeric cls yfi year o tznames tzi hfz hfwt htz dflt hdv t ht .us2 hflags hwin
+  · show TemplateThm "eu_yy_date"
+    simp only [TemplateThm]
+    exact fun cls _ yfi year o tznames tzi hfz hfwt htz t dflt ht hdv hflags hwin =>
+      parse_render_numeric cls yfi year o tznames tzi hfz hfwt htz dflt hdv t ht .eu2 hflags hwin
+  · show TemplateThm "yf_yy"
+    simp only [TemplateThm]
+    exact fun cls _ yfi year o tznames tzi hfz hfwt htz t dflt ht hdv hflags hwin =>
+      parse_render_numeric cls yfi year o tznames tzi hfz hfwt htz dflt hdv t ht .yf2 hflags hwin
+-- END GENERATED INDEX
 
 end C02
